@@ -437,3 +437,31 @@ def closure_of_arg_any(facts, body, call):
                 if cb is not None:
                     return cb
     return None
+
+
+def guards_on_all_paths(body, block, dom=None):
+    """[(switch block a, classify_switch(a), truth)] for every branch that holds on *every* path to `block`:
+    a dominates block and block is reachable from a only through edges of one polarity (truth = the branch condition's
+    value on those edges, `otherwise` of a bool switch counting as true).  Unlike control dependence this does not accept
+    tests that can be bypassed (`false && test`, a test inside one arm of an earlier branch)."""
+    dom = dom or cfg.Dom(body)
+    out = []
+    for a in dom.dominators(block):
+        if a == block:
+            continue
+        t = body.term(a)
+        if t[0] != "switch":
+            continue
+        edges = body.switch_edges(a)
+        via = []
+        for v, tg in edges:
+            if tg == block or block in cfg.reachable_from(body, tg, avoid_blocks=[a]):
+                via.append(v)
+        if not via or len(set(via)) == len({v for v, _t in edges}):
+            continue
+        k = classify_switch(body, a)
+        truth = any(v != 0 for v in via)        # None (otherwise) != 0
+        if k and k[0] == "call" and k[2]:
+            truth = not truth
+        out.append((a, k, truth))
+    return out
